@@ -977,6 +977,8 @@ BF_gensalt (char subtype, unsigned long count,
 
   BF_encode (&output[7], aligned_rbytes, 16);
   output[7 + 22] = '\0';
+
+  explicit_bzero (aligned_rbytes, sizeof aligned_rbytes);
 }
 #endif
 
